@@ -39,6 +39,8 @@ def check_verdict(c, r, s, G, hl, key, allow=False):
 
 
 def generate(rng, tier, seed):
+    from props.tr31util import digit_payload_cases
+    yield from digit_payload_cases(rng)
     from props.tr31util import boundary_cases
     for ver in "BD":
         for c, *_ in boundary_cases(rng, ver, tier):
